@@ -61,7 +61,7 @@ def plan(tier):
 
 def _ops():
     vec = st.tuples(st.just("vec"), st.sampled_from(KINDS), st.integers(0, 5), st.sampled_from(["int", "downto", "upto"]))
-    base = st.tuples(st.just("base"), st.sampled_from(QUALS + ["Port"]), st.sampled_from(["BitVector", "Unsigned", "Signed", "Bit"]),
+    base = st.tuples(st.just("base"), st.sampled_from(QUALS + ["Port"]), st.sampled_from(["BitVector", "Unsigned", "Signed", "Bit", "Boolean", "bool", "Integer", "int"]),
                      st.sampled_from(DIRS))
     qual = st.tuples(st.just("qual"), st.sampled_from(QUALS), st.sampled_from(KINDS), st.integers(0, 5))
     port = st.tuples(st.just("port"), st.sampled_from(DIRS), st.sampled_from(KINDS), st.integers(0, 5))
@@ -172,8 +172,13 @@ def _check_history(case):
                 vec(op[1], op[2], op[3])
             elif tag == "base":
                 q, b, d = op[1], op[2], op[3]
-                T = {"BitVector": BitVector, "Unsigned": Unsigned, "Signed": Signed, "Bit": Bit}[b]
-                td = {"BitVector": ("bv", None), "Unsigned": ("u", None), "Signed": ("s", None), "Bit": ("bit",)}[b]
+                # bool/int are documented spellings of Boolean/Integer: equal parameters, so the identical class
+                T = {"BitVector": BitVector, "Unsigned": Unsigned, "Signed": Signed, "Bit": Bit,
+                     "Boolean": cohdl.Boolean, "bool": bool, "Integer": cohdl.Integer, "int": int}[b]
+                td = {"BitVector": ("bv", None), "Unsigned": ("u", None), "Signed": ("s", None), "Bit": ("bit",),
+                      "Boolean": ("boolean",), "bool": ("boolean",), "Integer": ("integer",), "int": ("integer",)}[b]
+                if b in ("bool", "int"):
+                    out.labels.append("builtin_alias")
                 if q == "Port":
                     cls = Port[T, getattr(Port.Direction, d)]
                     note(("q", q, d, td), cls, ("Q", (q, d, td)))
@@ -255,11 +260,16 @@ def _shape(d):
 
 
 def _request(key, KCLS, QCLS):
+    import cohdl
     from cohdl import Array, Bit, BitVector, Port, Signed, Unsigned
 
     def T(td):
         if td == ("bit",):
             return Bit
+        if td == ("boolean",):
+            return cohdl.Boolean
+        if td == ("integer",):
+            return cohdl.Integer
         if td[0] == "arr":
             return Array[T(td[1]), td[2]]
         k, w = td
